@@ -27,7 +27,11 @@ var extModels = map[string]extModel{
 	"(encoding/binary.bigEndian).PutUint16":    {preLen: 2, preArg: 1},
 	"(encoding/binary.bigEndian).PutUint32":    {preLen: 4, preArg: 1},
 	"(encoding/binary.bigEndian).PutUint64":    {preLen: 8, preArg: 1},
+	"(encoding/binary.bigEndian).AppendUint16": {special: "append2"},
 	"(encoding/binary.bigEndian).AppendUint32": {special: "append4"},
+	"(encoding/binary.bigEndian).AppendUint64": {special: "append8"},
+	"bytes.Clone":                 {special: "clone"},
+	"slices.Clone":                {special: "clone"},
 	"bytes.Index":                 {special: "index"},
 	"fmt.Errorf":                  {nonNil: true},
 	"errors.New":                  {nonNil: true},
@@ -136,7 +140,11 @@ func (it *interp) execCall(s *state, f frameID, fn *ssa.Function, x *ssa.Call) *
 		if core.InModule(callee) && len(callee.Blocks) > 0 {
 			return it.inline(s, f, fn, x, callee, nil)
 		}
-		if m, ok := extModels[name]; ok {
+		mname := name
+		if i := strings.Index(mname, "["); i > 0 {
+			mname = mname[:i] // instantiation of a generic function
+		}
+		if m, ok := extModels[mname]; ok {
 			if m.preLen > 0 {
 				it.need(s, fn, x, "PRE", shortName(name), func(d *disjunct) []lin.Ineq {
 					l, _ := it.lenCap(d, f, cc.Args[m.preArg])
@@ -144,13 +152,29 @@ func (it *interp) execCall(s *state, f frameID, fn *ssa.Function, x *ssa.Call) *
 				})
 			}
 			switch m.special {
-			case "append4":
+			case "append2", "append4", "append8":
+				k := map[string]int64{"append2": 2, "append4": 4, "append8": 8}[m.special]
 				set(func(d *disjunct) rep {
 					la, _ := it.lenCap(d, f, cc.Args[1])
 					_, c := it.lenAtom(f, x)
-					nl := la.AddConst(4)
+					nl := la.AddConst(k)
 					d.addFact(lin.LE(nl, c))
 					return rep{kind: kSlice, len: nl, cap: c, isnil: lin.Const(0)}
+				})
+			case "clone":
+				// a copy of the argument: same length, nil stays nil
+				set(func(d *disjunct) rep {
+					src := it.repOf(d, f, cc.Args[0])
+					la, _ := it.lenCap(d, f, cc.Args[0])
+					_, c := it.lenAtom(f, x)
+					d.addFact(lin.LE(la, c))
+					r := rep{kind: kSlice, len: la, cap: c}
+					if src.isnil != nil {
+						r.isnil = src.isnil
+					} else {
+						r.isnil = it.nilAtom(f, x)
+					}
+					return r
 				})
 			case "index":
 				out := &state{}
@@ -178,6 +202,29 @@ func (it *interp) execCall(s *state, f frameID, fn *ssa.Function, x *ssa.Call) *
 					}
 					return r
 				})
+			}
+			return s
+		}
+		if pureStdlib(callee) {
+			// a standard-library function without a specific model: it cannot reach this program's
+			// memory except through its arguments, and its result is unconstrained
+			for _, d := range s.ds {
+				for _, a := range cc.Args {
+					if _, isPtr := a.Type().Underlying().(*types.Pointer); isPtr {
+						if ad, ok := it.addrOf(d, f, a); ok {
+							prefix := fmt.Sprintf("%d:%p", ad.root.f, ad.root.v)
+							for mk := range d.mem {
+								if strings.HasPrefix(mk, prefix) {
+									d.forget(mk)
+								}
+							}
+							delete(d.mem, zeroMarker(ad))
+						}
+					}
+				}
+				if x.Type() != nil {
+					d.vals[valKey{f, x}] = it.freshRep(d, f, x, x.Type())
+				}
 			}
 			return s
 		}
@@ -219,6 +266,22 @@ func (it *interp) execCall(s *state, f frameID, fn *ssa.Function, x *ssa.Call) *
 		}
 	}
 	return s
+}
+
+// pureStdlib: packages whose functions neither keep references to nor modify memory other than
+// what their arguments point to (no callbacks into this module are passed to them here).
+var pureStdlibPkgs = map[string]bool{"encoding/binary": true, "bytes": true, "slices": true, "errors": true, "fmt": true,
+	"strings": true, "math": true, "math/bits": true, "time": true, "sort": true, "unicode/utf8": true, "strconv": true, "cmp": true}
+
+func pureStdlib(fn *ssa.Function) bool {
+	if fn == nil || fn.Pkg == nil || fn.Pkg.Pkg == nil {
+		// generic instantiations have no Pkg: use the origin's package
+		if fn != nil && fn.Origin() != nil && fn.Origin().Pkg != nil {
+			return pureStdlibPkgs[fn.Origin().Pkg.Pkg.Path()]
+		}
+		return false
+	}
+	return pureStdlibPkgs[fn.Pkg.Pkg.Path()]
 }
 
 func shortName(n string) string {
@@ -278,6 +341,16 @@ func (it *interp) inline(s *state, f frameID, fn *ssa.Function, x *ssa.Call, cal
 			}
 		}
 	}
+	// remember which caller path each return state descends from: the summary below merges the
+	// callee's outcomes of one caller path before it merges different caller paths
+	callTag := fmt.Sprintf("call|%d", cf)
+	nCallers := len(s.ds)
+	for i, d := range s.ds {
+		if d.tags == nil {
+			d.tags = map[string]string{}
+		}
+		d.tags[callTag] = fmt.Sprintf("c%d", i)
+	}
 	it.retStack = append(it.retStack, nil)
 	it.runRegion(cf, callee, nil, callee.Blocks[0], s)
 	rets := it.retStack[len(it.retStack)-1]
@@ -302,11 +375,23 @@ func (it *interp) inline(s *state, f frameID, fn *ssa.Function, x *ssa.Call, cal
 	}
 	// summarise: callee-internal path distinctions rarely matter to the caller; keep at most
 	// retCap disjuncts (reduce never merges an error return with a success return if avoidable)
-	if len(out.ds) > it.retCap {
+	limit := it.retCap
+	if nCallers > limit {
+		limit = nCallers // a call never costs the caller the path distinctions it already had
+	}
+	if limit > it.K {
+		limit = it.K
+	}
+	if len(out.ds) > limit {
 		saveK := it.K
-		it.K = it.retCap
+		it.K = limit
+		it.reduceTag = callTag
 		out = it.reduce(out)
+		it.reduceTag = ""
 		it.K = saveK
+	}
+	for _, d := range out.ds {
+		delete(d.tags, callTag)
 	}
 	return out
 }
